@@ -462,3 +462,5 @@ B("P-R15-end-by-match-with-guard", ["C08", "C02", "C07", "C15"], (P_, """       
                 raise ParseError(f"Unexpected </{tag}>; expected </{innermost}>")
         self._open.pop()
 """))
+
+F("T-R3-digit-gate-on-the-raw-text", ["C01", "C10"], (T_, "            return self.enforce_required(None)\n        return self.enforce_length(int(value))\n", "            return self.enforce_required(None)\n        if not value.isdigit():\n            raise ValueError(f\"invalid literal for int(): {value!r}\")\n        return self.enforce_length(int(value))\n"))
